@@ -301,7 +301,9 @@ class Report:
             "violations": len(new),
         }
         (VERIF / "evidence").mkdir(exist_ok=True)
-        (VERIF / "evidence" / f"{self.prop}.json").write_text(jdump(evd, indent=1))
+        # partial development runs (--no-e1 / --no-bounded / --group) never overwrite the registered evidence file
+        name = f"{self.prop}.json" if not getattr(self, "partial", False) else f"_partial_{self.prop}.json"
+        (VERIF / "evidence" / name).write_text(jdump(evd, indent=1))
         if self.faults:
             for f in self.faults[:5]:
                 print("CHECKER-FAULT:", str(f.get("what"))[:3000])
